@@ -4,7 +4,8 @@
    -------------------------------------------------------  ------------------------------------------------------------
    _serialize_test_result(test)                              junit_children (children of <testcase>, in document order)
        if test.status == "skipped": <skipped/>                 status_is s_skipped
-       else for step / for log:
+       elif test.status == "failed": for step / for log:       status_is s_failed   (F12 repaired: was a plain `else`,
+                                                               junit_children_unfixed = before)
          isinstance(log, Check) and is_successful is False     LCheck _ false _ _  -> JFailure
          isinstance(log, Log) and level == "error"             LLog "error" _ _    -> JError
    _serialize_suite_result(suite)                            junit_suite  (name=suite.path, tests, failures, skipped, testcases)
@@ -16,7 +17,10 @@
        attrib["failures"] = by_status["failed"]                jr_failures
        if report.end_time is not None: end - start             TypeError when start_time is None
        for suite in all_suites(): if suite.get_tests(): ...    suites with at least one test (`if list:` = non-empty)
-   Not modelled: the `time`/`timestamp` attribute strings, the `message` attribute of failure/error, testcase `time`. *)
+   Not modelled: the `time`/`timestamp` attribute strings, the `message` attribute of failure/error, testcase `time`.
+
+   junit_children_unfixed describes the code BEFORE the repair F12 (DESIGN.md section 6); it is tied to nothing and is only what
+   C20_junit_iff_unfixed_refuted of Props/C20.v is stated about. *)
 From Coq Require Import List NArith ZArith Bool.
 Import ListNotations.
 From LCC Require Import Base.Util Model.Report Model.Stats.
@@ -30,9 +34,17 @@ Definition log_children (l : steplog) : list jchild :=
   | _ => []
   end.
 
+Definition steps_children (r : result) : list jchild :=
+  flat_map (fun s => flat_map log_children (st_logs s)) (r_steps r).
+
 Definition junit_children (r : result) : list jchild :=
   if status_is s_skipped r then [JSkipped]
-  else flat_map (fun s => flat_map log_children (st_logs s)) (r_steps r).
+  else if status_is s_failed r then steps_children r
+  else [].
+
+(* BEFORE F12: the failure/error children were emitted for every test that is not skipped, whatever its status *)
+Definition junit_children_unfixed (r : result) : list jchild :=
+  if status_is s_skipped r then [JSkipped] else steps_children r.
 
 Record jcase := mkCase { jc_name : str; jc_children : list jchild }.
 Record jsuite := mkJSuite {
